@@ -125,6 +125,89 @@ pub fn check(sc: &Scenario, out: &RunOutput) -> OracleResult {
         res.probe("max_live_connections_on_one_socket", max_live_seen as u64);
     }
 
+    // (3') loss-free runs: a SYN names a NEW connection; every SYN that reaches a socket is
+    // accepted, refused with a RESET, still queued at the end, or ignored because the receive
+    // key it asks for (sender, id + 1) is in use - it never disappears into another connection
+    if fault_free {
+        use std::collections::HashSet;
+        type K3 = (std::net::SocketAddr, std::net::SocketAddr, u16);
+        let mut live_recv: HashMap<K3, u32> = HashMap::new();
+        let mut recv_of: HashMap<K3, Vec<u16>> = HashMap::new();
+        let mut pending_connect: HashSet<K3> = HashSet::new(); // (connector, target, syn id)
+        // every receive key a socket ever used or asked for (a queued SYN is also dropped when
+        // the key it asks for is taken by a connection opened while it waited)
+        let mut ever_key: HashSet<K3> = HashSet::new();
+        let mut syns: Vec<(T, std::net::SocketAddr, std::net::SocketAddr, u16, u16, bool)> = vec![]; // t, src, dst, id, seq, key busy
+        let mut seen: HashSet<K3> = HashSet::new();
+        let mut accepted: HashSet<K3> = HashSet::new(); // (acceptor, remote, syn id)
+        let mut refused: HashSet<K3> = HashSet::new();
+        let mut last_cached: HashMap<std::net::SocketAddr, usize> = HashMap::new();
+        for (t, ev) in &h.evs {
+            match ev {
+                Ev::Emit(e) if e.real => {
+                    if let Some(p) = &e.pkt {
+                        if p.typ == crate::codec::ST_SYN {
+                            pending_connect.insert((e.src, e.dst, p.conn_id));
+                            ever_key.insert((e.src, e.dst, p.conn_id));
+                        }
+                        if p.typ == crate::codec::ST_RESET {
+                            refused.insert((e.src, e.dst, p.conn_id));
+                        }
+                    }
+                }
+                Ev::Deliver(d) if !d.corrupted => {
+                    if let Some(p) = &d.pkt {
+                        if p.typ == crate::codec::ST_SYN && seen.insert((d.src, d.dst, p.conn_id)) {
+                            let want = p.conn_id.wrapping_add(1);
+                            let busy = live_recv.get(&(d.dst, d.src, want)).copied().unwrap_or(0) > 0 || pending_connect.contains(&(d.dst, d.src, want));
+                            syns.push((*t, d.src, d.dst, p.conn_id, p.seq, busy));
+                        }
+                    }
+                }
+                Ev::Probe(ProbeEvent::ConnCreated(k)) => {
+                    accepted.insert((k.local, k.remote, k.conn_id_send));
+                }
+                Ev::Probe(ProbeEvent::ConnRecvId { key, conn_id_recv }) => {
+                    *live_recv.entry((key.local, key.remote, *conn_id_recv)).or_insert(0) += 1;
+                    recv_of.entry((key.local, key.remote, key.conn_id_send)).or_default().push(*conn_id_recv);
+                    pending_connect.remove(&(key.local, key.remote, *conn_id_recv));
+                    if !accepted.contains(&(key.local, key.remote, key.conn_id_send)) || conn_id_recv.wrapping_add(1) == key.conn_id_send {
+                        // (a connector-role connection: receives on its SYN id)
+                        ever_key.insert((key.local, key.remote, *conn_id_recv));
+                    }
+                }
+                Ev::Probe(ProbeEvent::ConnDropped(k)) => {
+                    if let Some(v) = recv_of.get_mut(&(k.local, k.remote, k.conn_id_send)) {
+                        if !v.is_empty() {
+                            let rid = v.remove(0);
+                            if let Some(c) = live_recv.get_mut(&(k.local, k.remote, rid)) {
+                                *c = c.saturating_sub(1);
+                            }
+                        }
+                    }
+                }
+                Ev::Probe(ProbeEvent::Socket(s)) => {
+                    last_cached.insert(s.local, s.cached_syns);
+                }
+                _ => {}
+            }
+        }
+        for n in 0..sc.nodes.len() {
+            let me = sc.addr(n);
+            let lost: Vec<_> = syns
+                .iter()
+                .filter(|(_, src, dst, id, _, busy)| *dst == me && !*busy && !accepted.contains(&(me, *src, *id)) && !refused.contains(&(me, *src, *id)))
+                // the key it asks for was never one of our own connects' (before or after)
+                .filter(|(_, src, _, id, _, _)| !ever_key.contains(&(me, *src, id.wrapping_add(1))))
+                .collect();
+            let queued = last_cached.get(&me).copied().unwrap_or(0);
+            if lost.len() > queued {
+                let (t, src, _, id, _, _) = lost[0];
+                res.violate(P, "connection-request-vanished", *t, format!("loss-free run: {} SYNs reached node {} asking for a free receive key and were neither accepted nor refused, but only {} are queued at the end of the run (first: from {} connection id {} at {})", lost.len(), n, queued, src, id, crate::hist::fmt_t(*t)));
+            }
+        }
+    }
+
     // (5) loss-free runs: a connection that was established (connect Ok and surfaced at an
     // accept) is not disturbed by the others, by attempts beyond the limit or by id reuse: both
     // streams arrive complete, both readers see EOF, no call on it fails
